@@ -1,5 +1,6 @@
 import AvoVerif.Drv.Common
 import AvoVerif.Model.Layout
+import AvoVerif.Model.LayoutCtx
 /-!
 Protocol of C07 (tokens separated by one space).
 
@@ -19,6 +20,21 @@ accept-argsize <sig> <total>                    → ok | bad-argsize want <n>
 accept-text <sig> <$frame-args>                 → ok | …
 sizes <type>                                    → `<size> <align> <k> <off>^k`
 accept-count <n> <tag…>                         → ok iff n = 0   (toolchain diagnostics on generated files)
+
+Histories of calls on one build.Context (Model/LayoutCtx):
+cls    := gp8|gp16|gp32|gp64|xmm
+regref := `p:<NAME>:<cls>` | `a:<k>`                       (register returned by allocation call k)
+ref    := `r <P|R> <sel> <path>` | `h <k> <path>`          (component returned by Dereference call k)
+op     := `F <name> <sig>` | `A <cls>` | `D <ref>` | `L <ref> <regref>` | `S <regref> <ref>`
+          | `X <opcode> <k> regref^k` | `B`                (B = Label)
+arg    := `m <sym|-> <disp> <FP|p<NAME>|v<k>>` | `r <p<NAME>|v<k>>`
+instr  := `<opcode> <k> arg^k`                             (label: `# 0`)
+file   := `<nf> (fn <name> <ni> instr^ni)^nf`
+ctxhist <n> op^n                                → `<file> errs <k> <call>^k`
+obs    := `<D|A> <call> <fn index> <nodes so far> <v<k>|->`   (register handed out by an allocation / Dereference call)
+accept-ctxhist <n> op^n => <file> obs <k> obs^k → ok | bad-functions | bad-pointer-not-loaded fn <name> instr <i>
+                                                  | bad-register-not-fresh call <k>
+accept-hresolve <call> <n> op^n => <sig> <P|R> <sel> <path> => <outcome>     → as accept-resolve
 -/
 namespace Avo.Drv.C07
 open Avo.Drv Avo.Layout
@@ -146,6 +162,22 @@ def parseTextSize (s : String) : Option (Nat × Nat) :=
   | [f, a] => do let f ← f.toNat?; let a ← a.toNat?; pure (f, a)
   | _ => none
 
+/-- `<sig> <P|R> <sel> <path> => <outcome>` judged by `acceptResolve` (+ the `Mem.Asm()` text). -/
+def acceptResolveToks (rest : List String) : Option String := do
+  let (s, rest) ← sigTok rest
+  let (isRet, rest) ← retTok rest
+  let (sel, rest) ← selTok rest
+  let (path, rest) ← listOf stepTok rest
+  match rest with
+  | "=>" :: out =>
+    let (o, text) ← outcomeTok out
+    let v := acceptResolve s isRet sel path o
+    if v != "ok" then some v else
+    match o, text with
+    | .ok r, some t => some (if asmText r.addr == t then "ok" else "bad-asm-text want " ++ asmText r.addr)
+    | _, _ => some "ok"
+  | _ => none
+
 def handle : Handler
   | "resolve" :: rest => do
     let (s, rest) ← sigTok rest
@@ -155,20 +187,7 @@ def handle : Handler
     match resolve s isRet sel path with
     | .ok (a, b) => some (renderResolved a b)
     | .error _ => some "err"
-  | "accept-resolve" :: rest => do
-    let (s, rest) ← sigTok rest
-    let (isRet, rest) ← retTok rest
-    let (sel, rest) ← selTok rest
-    let (path, rest) ← listOf stepTok rest
-    match rest with
-    | "=>" :: out =>
-      let (o, text) ← outcomeTok out
-      let v := acceptResolve s isRet sel path o
-      if v != "ok" then some v else
-      match o, text with
-      | .ok r, some t => some (if asmText r.addr == t then "ok" else "bad-asm-text want " ++ asmText r.addr)
-      | _, _ => some "ok"
-    | _ => none
+  | "accept-resolve" :: rest => acceptResolveToks rest
   | "argsize" :: rest => do
     let (s, _) ← sigTok rest
     some (toString s.bytes)
@@ -195,7 +214,174 @@ def handle : Handler
     some (if n == 0 then "ok" else s!"bad-diagnostics {n}")
   | _ => none
 
+/-! ## Histories on one Context -/
+section Hist
+open Avo.LayoutCtx
+
+def clsOfName : String → Option RegCls
+  | "gp8" => some .gp8 | "gp16" => some .gp16 | "gp32" => some .gp32 | "gp64" => some .gp64
+  | "xmm" => some .xmm | _ => none
+
+def regRefTok : List String → Option (RegRef × List String)
+  | t :: ts =>
+    match t.splitOn ":" with
+    | ["p", n, c] => (clsOfName c).map (fun c => (RegRef.phys n.toList c, ts))
+    | ["a", k] => k.toNat?.map (fun k => (RegRef.alloc k, ts))
+    | _ => none
+  | [] => none
+
+def refTok : List String → Option (CRef × List String)
+  | "r" :: rest => do
+    let (isRet, rest) ← retTok rest
+    let (sel, rest) ← selTok rest
+    let (path, rest) ← listOf stepTok rest
+    pure (.root isRet sel path, rest)
+  | "h" :: k :: rest => do
+    let k ← k.toNat?
+    let (path, rest) ← listOf stepTok rest
+    pure (.handle k path, rest)
+  | _ => none
+
+def opTok : List String → Option (Op × List String)
+  | "F" :: name :: rest => do
+    let (s, rest) ← sigTok rest
+    pure (.func name.toList s, rest)
+  | "A" :: c :: rest => (clsOfName c).map (fun c => (Op.alloc c, rest))
+  | "D" :: rest => do
+    let (c, rest) ← refTok rest
+    pure (.deref c, rest)
+  | "L" :: rest => do
+    let (c, rest) ← refTok rest
+    let (r, rest) ← regRefTok rest
+    pure (.load c r, rest)
+  | "S" :: rest => do
+    let (r, rest) ← regRefTok rest
+    let (c, rest) ← refTok rest
+    pure (.store r c, rest)
+  | "X" :: opc :: rest => do
+    let (rs, rest) ← listOf regRefTok rest
+    pure (.other opc.toList rs, rest)
+  | "B" :: rest => some (.label, rest)
+  | _ => none
+
+def rgName : Rg → String
+  | .phys n => "p" ++ String.ofList n
+  | .virt k => "v" ++ toString k
+
+def mbaseName : MBase → String
+  | .fp => "FP"
+  | .phys n => "p" ++ String.ofList n
+  | .virt k => "v" ++ toString k
+
+def argText : Arg → String
+  | .mem m => joinSp ["m", symName m.sym, toString m.disp, mbaseName m.base]
+  | .reg r => joinSp ["r", rgName r]
+
+def instrText (i : Instr) : String :=
+  joinSp ([String.ofList i.op, toString i.args.length] ++ i.args.map argText)
+
+def fnText (f : Fn) : String :=
+  joinSp (["fn", String.ofList f.name, toString f.body.length] ++ f.body.map instrText)
+
+def fileText (fs : List Fn) : String := joinSp (toString fs.length :: fs.map fnText)
+
+def rgOfName (s : String) : Option Rg :=
+  if s.startsWith "p" then some (.phys (s.drop 1).toString.toList)
+  else if s.startsWith "v" then (s.drop 1).toString.toNat?.map Rg.virt
+  else none
+
+def mbaseOfName (s : String) : Option MBase :=
+  if s == "FP" then some .fp
+  else match rgOfName s with
+    | some (.phys n) => some (.phys n)
+    | some (.virt k) => some (.virt k)
+    | none => none
+
+def argTok : List String → Option (Arg × List String)
+  | "m" :: sym :: disp :: base :: rest => do
+    let d ← disp.toInt?
+    let b ← mbaseOfName base
+    pure (.mem ⟨if sym == "-" then [] else sym.toList, d, b⟩, rest)
+  | "r" :: r :: rest => (rgOfName r).map (fun r => (Arg.reg r, rest))
+  | _ => none
+
+def instrTok : List String → Option (Instr × List String)
+  | opc :: rest => do
+    let (args, rest) ← listOf argTok rest
+    pure (⟨opc.toList, args⟩, rest)
+  | [] => none
+
+/-- A function of the implementation's file: name and body (the signature is in the history). -/
+def fnTok : List String → Option ((String × List Instr) × List String)
+  | "fn" :: name :: rest => do
+    let (body, rest) ← listOf instrTok rest
+    pure ((name, body), rest)
+  | _ => none
+
+/-- Index of the first instruction the forward scan rejects. -/
+def firstBad : List Nat → List Instr → Nat → Option Nat
+  | _, [], _ => none
+  | L, ins :: rest, i => if usesOK L ins then firstBad (stepLoaded L ins) rest (i + 1) else some i
+
+def obsTok : List String → Option (Obs × List String)
+  | _ :: k :: fi :: pos :: r :: rest => do
+    let k ← k.toNat?
+    let fi ← fi.toNat?
+    let pos ← pos.toNat?
+    let v ← (if r == "-" then some none else
+      match rgOfName r with
+      | some (.virt v) => some (some v)
+      | _ => none)
+    pure (⟨k, fi, pos, v⟩, rest)
+  | _ => none
+
+/-- The first call whose register the freshness acceptor rejects (`obsOKb` = there is none). -/
+def firstStale (fns : List (List Instr)) : List Nat → List Obs → Option Nat
+  | _, [] => none
+  | seen, o :: rest =>
+    match o.reg with
+    | none => firstStale fns seen rest
+    | some v => if !seen.contains v && freshB fns o.fi o.pos v then firstStale fns (v :: seen) rest else some o.call
+
+def splitArrow : List String → List String × List String
+  | [] => ([], [])
+  | "=>" :: rest => ([], rest)
+  | t :: rest => let (a, b) := splitArrow rest; (t :: a, b)
+
+def funcNames : List Op → List String
+  | [] => []
+  | .func n _ :: r => String.ofList n :: funcNames r
+  | _ :: r => funcNames r
+
+def handleHist : Handler
+  | "ctxhist" :: rest => do
+    let (ops, _) ← listOf opTok rest
+    let st := run ops
+    some (joinSp [fileText st.fns, "errs", natList st.errs])
+  | "accept-ctxhist" :: rest => do
+    let (h, o) := splitArrow rest
+    let (ops, _) ← listOf opTok h
+    let (fns, o) ← listOf fnTok o
+    let obs ← (match o with
+      | "obs" :: o => (listOf obsTok o).map (·.1)
+      | _ => none)
+    if fns.map (·.1) != funcNames ops then some "bad-functions" else
+    match fns.find? (fun f => !domOKb [] f.2) with
+    | some f => some s!"bad-pointer-not-loaded fn {f.1} instr {(firstBad [] f.2 0).getD 0}"
+    | none =>
+      match firstStale (fns.map (·.2)) [] obs with
+      | some k => some s!"bad-register-not-fresh call {k}"
+      | none => some "ok"
+  | "accept-hresolve" :: _ :: rest =>
+    -- `<call> <history> => <accept-resolve request>`: the operand of the instruction call number <call> emitted,
+    -- against the signature of the function the call was made in (the history is carried for replay only)
+    acceptResolveToks (splitArrow rest).2
+  | _ => none
+
+end Hist
+
 def handlers : List (String × Handler) :=
   ["resolve", "accept-resolve", "argsize", "accept-argsize", "accept-text", "sizes", "accept-count"].map (·, handle)
+    ++ ["ctxhist", "accept-ctxhist", "accept-hresolve"].map (·, handleHist)
 
 end Avo.Drv.C07
